@@ -52,6 +52,10 @@ SLOTS = [
     ("rep-mid", "r = { a{1", "} }"),
     ("rep-mid2", "r = { a{1,", "} }"),
     ("rep-close", "r = { a{1,2", " }"),
+    ("rep-u32-last", "r = { a{429496729", "} }"),  # pest: repeat counts are u32 ("number cannot overflow u32")
+    ("rep-u32-extra", "r = { a{4294967295", "} }"),
+    ("rep-u32-max", "r = { a{,429496729", "} }"),
+    ("rep-u32-minmax", "r = { a{1,429496729", "} }"),
     ("after-rule", "r = { a }", ""),
     ("between-rules", "r = { a }", "s = { b }"),
     ("leading", "", "r = { a }"),
@@ -262,6 +266,10 @@ replay_ext.HANDLERS["c10"] = _replay
 
 SIZE_SPECIALS = {
     "count-5000-digits": 'r = { "a"{' + "9" * 5000 + "} }",
+    "count-22-digits": 'r = { "a"{10000000000000000000000} }',
+    "count-22-digits-min": 'r = { "a"{10000000000000000000000,} }',
+    "count-22-digits-max": 'r = { "a"{,10000000000000000000000} }',
+    "count-100000": 'r = { "a"{100000} }',
     "slice-5000-digits": "r = { PEEK[" + "9" * 5000 + "..] }",
     "parens-3000": "r = { " + "(" * 3000 + '"a"' + ")" * 3000 + " }",
     "not-3000": "r = { " + "!" * 3000 + '"a" }',
